@@ -23,9 +23,11 @@ import (
 // a parser that rejects valid input after enough rejected ones, an exporter
 // that reports a flat table as "nested too deeply".
 //
-// The rule needs no list of counters: the pairing in one function is the
-// evidence that the field is a depth counter (t.line++, s.size++ are never
-// decremented where they are incremented and are not looked at).
+// The rule needs no list of counters: the pairing in one function together
+// with a comparison of the field with a constant limit (>= 2) somewhere in the
+// module is the evidence that the field is a depth counter. t.line++ and
+// s.size++ are never decremented where they are incremented, and a cursor
+// that is moved forth and back is never compared with a constant limit.
 
 type counterOp struct {
 	stmt  ast.Stmt
@@ -67,6 +69,43 @@ func counterOpOf(c *Ctx, info *types.Info, s ast.Stmt) (counterOp, bool) {
 func ruleR103(only func(pkg *packages.Package) bool) func(c *Ctx) {
 	return func(c *Ctx) {
 		nFuncs := 0
+		limitCache := map[types.Object]int{}
+		limited := func(field types.Object) bool {
+			if v, ok := limitCache[field]; ok {
+				return v == 1
+			}
+			res := 0
+			for _, pkg := range c.RepoPkgs {
+				info := pkg.TypesInfo
+				for _, f := range pkg.Syntax {
+					ast.Inspect(f, func(x ast.Node) bool {
+						be, ok := x.(*ast.BinaryExpr)
+						if !ok || res == 1 {
+							return true
+						}
+						switch be.Op {
+						case token.LSS, token.LEQ, token.GTR, token.GEQ, token.EQL, token.NEQ:
+						default:
+							return true
+						}
+						for _, pair := range [][2]ast.Expr{{be.X, be.Y}, {be.Y, be.X}} {
+							sel, ok := ast.Unparen(pair[0]).(*ast.SelectorExpr)
+							if !ok || info.ObjectOf(sel.Sel) != field {
+								continue
+							}
+							if tv := info.Types[pair[1]]; tv.Value != nil && tv.Value.Kind() == constant.Int {
+								if v, ok := constant.Int64Val(tv.Value); ok && v >= 2 {
+									res = 1
+								}
+							}
+						}
+						return true
+					})
+				}
+			}
+			limitCache[field] = res
+			return res == 1
+		}
 		for _, pkg := range c.RepoPkgs {
 			if only != nil && !only(pkg) {
 				continue
@@ -138,6 +177,11 @@ func ruleR103(only func(pkg *packages.Package) bool) func(c *Ctx) {
 								}
 							}
 							if !paired {
+								continue
+							}
+							// a depth counter is compared with a limit somewhere (a constant of at least 2); a cursor that
+							// is moved forth and back (pos++ ... pos--) is not
+							if !limited(inc.field) {
 								continue
 							}
 							k++
